@@ -85,6 +85,7 @@ def axioms():
     ax('unB_B', ForAll([b], unB(Bx(b)) == b, patterns=[Bx(b)]))
     ax('B_unB', ForAll([x], Implies(tag(x) == TAG_BOOL, Bx(unB(x)) == x), patterns=[unB(x)]))
     ax('tag_B', ForAll([b], tag(Bx(b)) == TAG_BOOL, patterns=[Bx(b)]))
+    ax('unB_none', Not(unB(none)))        # bool(None) is False: a Bool-typed result that is None at run time reads as False
     ax('tag_none', tag(none) == TAG_NONE)
     ax('tag_none_inv', ForAll([x], Implies(tag(x) == TAG_NONE, x == none), patterns=[tag(x)]))
 
